@@ -281,65 +281,95 @@ pub fn c12_interleave(ctx: &mut Ctx, path: &str, mask: u64) {
 
 /// Iterator adaptors with their own specialisations (nth, nth_back, skip, last, count, rev) mixed with
 /// next/next_back, against a deque of the '/'-split.
-pub fn c12_adaptors(ctx: &mut Ctx, path: &str, mask: u64) {
-    let Ok(p) = Path::new(path) else {
-        return;
-    };
-    let (_abs, want) = model::segments(b(path));
-    let mut dq: std::collections::VecDeque<Vec<u8>> = want.iter().map(|x| x.to_vec()).collect();
-    let mut it = p.segments();
+/// Runs one adaptor program on a double-ended segment iterator against a deque of the expected
+/// items.  Returns a description of the first disagreement.
+fn adaptor_program<'x, I: DoubleEndedIterator<Item = &'x Segment>>(mut it: I, want: &[Vec<u8>], mask: u64) -> Result<(), String> {
+    let mut dq: std::collections::VecDeque<Vec<u8>> = want.iter().cloned().collect();
     let mut m = mask;
     let steps = ((mask >> 56) % 7) as usize;
     let mut log: Vec<String> = Vec::new();
     let lossy = |x: &Option<Vec<u8>>| x.as_ref().map(|v| String::from_utf8_lossy(v).to_string());
+    let by = |s: &'x Segment| s.as_bytes().to_vec();
     for _ in 0..steps {
         let op = m & 3;
         let k = ((m >> 2) & 3) as usize;
         m >>= 4;
         let (name, got, exp): (String, Option<Vec<u8>>, Option<Vec<u8>>) = match op {
-            0 => ("next()".into(), it.next().map(|s| s.as_bytes().to_vec()), dq.pop_front()),
-            1 => ("next_back()".into(), it.next_back().map(|s| s.as_bytes().to_vec()), dq.pop_back()),
+            0 => ("next()".into(), it.next().map(by), dq.pop_front()),
+            1 => ("next_back()".into(), it.next_back().map(by), dq.pop_back()),
             2 => {
                 for _ in 0..k { dq.pop_front(); }
-                (format!("nth({})", k), it.nth(k).map(|s| s.as_bytes().to_vec()), dq.pop_front())
+                (format!("nth({})", k), it.nth(k).map(by), dq.pop_front())
             }
             _ => {
                 for _ in 0..k { dq.pop_back(); }
-                (format!("nth_back({})", k), it.nth_back(k).map(|s| s.as_bytes().to_vec()), dq.pop_back())
+                (format!("nth_back({})", k), it.nth_back(k).map(by), dq.pop_back())
             }
         };
-        ctx.call("segments.adaptor");
         log.push(name);
         if got != exp {
-            ctx.fail("C12.iteration", c12_feats("adaptors", b(path)), format!("segments() of {} after {}: library {:?}, deque of the '/'-split {:?}", show(b(path)), log.join("."), lossy(&got), lossy(&exp)));
-            return;
+            return Err(format!("after {}: library {:?}, model {:?}", log.join("."), lossy(&got), lossy(&exp)));
         }
     }
     let rest: Vec<Vec<u8>> = dq.iter().cloned().collect();
     let k = ((mask >> 52) & 3) as usize;
     let kth: Option<Vec<u8>> = rest.get(k).cloned();
     let kth_back: Option<Vec<u8>> = if rest.len() > k { rest.get(rest.len() - 1 - k).cloned() } else { None };
-    let (name, ok) = match (mask >> 60) & 15 {
-        8 => ("rfold", it.rfold(Vec::new(), |mut a: Vec<Vec<u8>>, s| { a.push(s.as_bytes().to_vec()); a }) == rest.iter().rev().cloned().collect::<Vec<_>>()),
-        9 => ("find(k-th)", { let w = kth.clone(); it.find(|s| Some(s.as_bytes()) == w.as_deref()).map(|s| s.as_bytes().to_vec()) == kth }),
-        10 => ("rfind(k-th from the back)", { let w = kth_back.clone(); it.rfind(|s| Some(s.as_bytes()) == w.as_deref()).map(|s| s.as_bytes().to_vec()) == kth_back }),
-        11 => ("position(k-th)", { let w = kth.clone(); it.position(|s| Some(s.as_bytes()) == w.as_deref()) == rest.iter().position(|s| Some(s) == w.as_ref()) }),
-        12 => ("rev().nth(k)", it.rev().nth(k).map(|s| s.as_bytes().to_vec()) == kth_back),
-        13 => ("all(non-matching)/any", { let n = rest.len(); let mut seen = 0usize; let r = it.all(|_| { seen += 1; true }); r && seen == n }),
-        14 => ("take(k).collect() then rest", { let mut it = it; let a: Vec<Vec<u8>> = it.by_ref().take(k).map(|s| s.as_bytes().to_vec()).collect(); let b2: Vec<Vec<u8>> = it.map(|s| s.as_bytes().to_vec()).collect(); a == rest.iter().take(k).cloned().collect::<Vec<_>>() && b2 == rest.iter().skip(k).cloned().collect::<Vec<_>>() }),
-        15 => ("zip(rev)", { let v: Vec<Vec<u8>> = it.map(|s| s.as_bytes().to_vec()).collect(); v == rest }),
-        0 => ("collect()", it.map(|s| s.as_bytes().to_vec()).collect::<Vec<_>>() == rest),
-        1 => ("last()", it.last().map(|s| s.as_bytes().to_vec()) == rest.last().cloned()),
+    let (name, ok) = match (mask >> 59) & 31 {
+        0 => ("collect()", it.map(by).collect::<Vec<_>>() == rest),
+        1 => ("last()", it.last().map(by) == rest.last().cloned()),
         2 => ("count()", it.count() == rest.len()),
-        3 => ("rev().collect()", it.rev().map(|s| s.as_bytes().to_vec()).collect::<Vec<_>>() == rest.iter().rev().cloned().collect::<Vec<_>>()),
-        4 => ("skip(k).collect()", it.skip(k).map(|s| s.as_bytes().to_vec()).collect::<Vec<_>>() == rest.iter().skip(k).cloned().collect::<Vec<_>>()),
-        5 => ("step_by(k+1).collect()", it.step_by(k + 1).map(|s| s.as_bytes().to_vec()).collect::<Vec<_>>() == rest.iter().step_by(k + 1).cloned().collect::<Vec<_>>()),
-        6 => ("rev().skip(k).collect()", it.rev().skip(k).map(|s| s.as_bytes().to_vec()).collect::<Vec<_>>() == rest.iter().rev().skip(k).cloned().collect::<Vec<_>>()),
-        _ => ("fold", it.fold(0usize, |a, s| a + s.as_bytes().len() + 1) == rest.iter().map(|s| s.len() + 1).sum::<usize>()),
+        3 => ("rev().collect()", it.rev().map(by).collect::<Vec<_>>() == rest.iter().rev().cloned().collect::<Vec<_>>()),
+        4 => ("skip(k).collect()", it.skip(k).map(by).collect::<Vec<_>>() == rest.iter().skip(k).cloned().collect::<Vec<_>>()),
+        5 => ("step_by(k+1).collect()", it.step_by(k + 1).map(by).collect::<Vec<_>>() == rest.iter().step_by(k + 1).cloned().collect::<Vec<_>>()),
+        6 => ("rev().skip(k).collect()", it.rev().skip(k).map(by).collect::<Vec<_>>() == rest.iter().rev().skip(k).cloned().collect::<Vec<_>>()),
+        7 => ("fold", it.fold(0usize, |a, s| a + s.as_bytes().len() + 1) == rest.iter().map(|s| s.len() + 1).sum::<usize>()),
+        8 => ("rfold", it.rfold(Vec::new(), |mut a: Vec<Vec<u8>>, s| { a.push(s.as_bytes().to_vec()); a }) == rest.iter().rev().cloned().collect::<Vec<_>>()),
+        9 => ("find(k-th)", { let w = kth.clone(); it.find(|s| Some(s.as_bytes()) == w.as_deref()).map(by) == kth }),
+        10 => ("rfind(k-th from the back)", { let w = kth_back.clone(); it.rfind(|s| Some(s.as_bytes()) == w.as_deref()).map(by) == kth_back }),
+        11 => ("position(k-th)", { let w = kth.clone(); it.position(|s| Some(s.as_bytes()) == w.as_deref()) == rest.iter().position(|s| Some(s) == w.as_ref()) }),
+        12 => ("rev().nth(k)", it.rev().nth(k).map(by) == kth_back),
+        13 => ("all", { let n = rest.len(); let mut seen = 0usize; let r = it.all(|_| { seen += 1; true }); r && seen == n }),
+        14 => ("take(k).collect() then the rest", { let a: Vec<Vec<u8>> = it.by_ref().take(k).map(by).collect(); let b2: Vec<Vec<u8>> = it.map(by).collect(); a == rest.iter().take(k).cloned().collect::<Vec<_>>() && b2 == rest.iter().skip(k).cloned().collect::<Vec<_>>() }),
+        15 => ("peekable", { let mut p = it.peekable(); let first = p.peek().map(|s| s.as_bytes().to_vec()); let all: Vec<Vec<u8>> = p.map(by).collect(); first == rest.first().cloned() && all == rest }),
+        16 => ("skip_while(first k)", { let mut n = 0; it.skip_while(|_| { n += 1; n <= k }).map(by).collect::<Vec<_>>() == rest.iter().skip(k).cloned().collect::<Vec<_>>() }),
+        17 => ("take_while", { let mut n = 0; it.take_while(|_| { n += 1; n <= k }).map(by).collect::<Vec<_>>() == rest.iter().take(k).cloned().collect::<Vec<_>>() }),
+        18 => ("partition", { let (a, b2): (Vec<&Segment>, Vec<&Segment>) = it.partition(|s| s.as_bytes().len() % 2 == 0); let (x, y): (Vec<&Vec<u8>>, Vec<&Vec<u8>>) = rest.iter().partition(|s| s.len() % 2 == 0); a.len() == x.len() && b2.len() == y.len() && a.iter().zip(x.iter()).all(|(p, q)| p.as_bytes() == &q[..]) && b2.iter().zip(y.iter()).all(|(p, q)| p.as_bytes() == &q[..]) }),
+        19 => ("max_by_key(len) / min_by_key(len)", { let v: Vec<&Segment> = it.collect(); let mx = v.iter().max_by_key(|s| s.as_bytes().len()).map(|s| s.as_bytes().len()); mx == rest.iter().map(|s| s.len()).max() && v.len() == rest.len() }),
+        20 => ("max_by_key(len) direct", it.max_by_key(|s| s.as_bytes().len()).map(|s| s.as_bytes().len()) == rest.iter().map(|s| s.len()).max()),
+        21 => ("min_by_key(len) direct", it.min_by_key(|s| s.as_bytes().len()).map(|s| s.as_bytes().len()) == rest.iter().map(|s| s.len()).min()),
+        22 => ("enumerate().last()", it.enumerate().last().map(|(i, s)| (i, s.as_bytes().to_vec())) == rest.iter().cloned().enumerate().last()),
+        23 => ("for_each", { let mut v: Vec<Vec<u8>> = Vec::new(); it.for_each(|s| v.push(s.as_bytes().to_vec())); v == rest }),
+        24 => ("rev().for_each", { let mut v: Vec<Vec<u8>> = Vec::new(); it.rev().for_each(|s| v.push(s.as_bytes().to_vec())); v.reverse(); v == rest }),
+        25 => ("map(len).sum()", it.map(|s| s.as_bytes().len()).sum::<usize>() == rest.iter().map(|s| s.len()).sum::<usize>()),
+        26 => ("fuse: two more next() after the end", { let mut v: Vec<Vec<u8>> = Vec::new(); while let Some(s) = it.next() { v.push(s.as_bytes().to_vec()); if v.len() > rest.len() + 2 { break; } } let a = it.next().is_none(); let b2 = it.next_back().is_none(); v == rest && a && b2 }),
+        27 => ("alternate ends until empty", { let mut fr: Vec<Vec<u8>> = Vec::new(); let mut bk: Vec<Vec<u8>> = Vec::new(); loop { match it.next() { Some(s) => fr.push(s.as_bytes().to_vec()), None => break } match it.next_back() { Some(s) => bk.push(s.as_bytes().to_vec()), None => break } if fr.len() + bk.len() > rest.len() + 2 { break; } } bk.reverse(); fr.extend(bk); fr == rest }),
+        28 => ("nth(len)", { let n = rest.len(); it.nth(n).is_none() && it.next().is_none() && it.next_back().is_none() }),
+        29 => ("nth_back(len)", { let n = rest.len(); it.nth_back(n).is_none() && it.next().is_none() && it.next_back().is_none() }),
+        30 => ("nth(len+k) then next_back", it.nth(rest.len() + k).is_none() && it.next_back().is_none()),
+        _ => ("nth_back(len+k) then next", it.nth_back(rest.len() + k).is_none() && it.next().is_none()),
     };
+    if ok { Ok(()) } else { Err(format!("after {} then {} (k={}): differs from the model (remaining {} items)", log.join("."), name, k, rest.len())) }
+}
+
+/// Iterator adaptors with their own specialisations mixed with next/next_back, against a deque of the '/'-split.
+pub fn c12_adaptors(ctx: &mut Ctx, path: &str, mask: u64) {
+    let Ok(p) = Path::new(path) else {
+        return;
+    };
+    let (_abs, want) = model::segments(b(path));
+    let wantv: Vec<Vec<u8>> = want.iter().map(|x| x.to_vec()).collect();
     ctx.call("segments.adaptor");
-    if !ok {
-        ctx.fail("C12.iteration", c12_feats("adaptors", b(path)), format!("segments() of {} after {} then {} (k={}): differs from the deque of the '/'-split (remaining {} segments)", show(b(path)), log.join("."), name, k, rest.len()));
+    match crate::ctx::guard(|| adaptor_program(p.segments(), &wantv, mask)) {
+        Ok(Ok(())) => {}
+        Ok(Err(e)) => ctx.fail("C12.iteration", c12_feats("adaptors", b(path)), format!("segments() of {} {} (program {:#x})", show(b(path)), e, mask)),
+        Err(m) => ctx.fail("C12.iteration", c12_feats("adaptors", b(path)), format!("segments() of {} under adaptor program {:#x} panicked: {}", show(b(path)), mask, m)),
+    }
+    // IntoIterator for &Path is the same iterator
+    match crate::ctx::guard(|| adaptor_program(p.into_iter(), &wantv, mask.rotate_left(9))) {
+        Ok(Ok(())) => {}
+        Ok(Err(e)) => ctx.fail("C12.iteration", c12_feats("adaptors", b(path)), format!("(&path).into_iter() of {} {} (program {:#x})", show(b(path)), e, mask.rotate_left(9))),
+        Err(m) => ctx.fail("C12.iteration", c12_feats("adaptors", b(path)), format!("(&path).into_iter() of {} panicked: {}", show(b(path)), m)),
     }
     ctx.stratum("adaptors");
 }
@@ -1703,6 +1733,18 @@ pub fn c09(ctx: &mut Ctx, path: &str) {
             Ok((v, lens_ok)) => {
                 if v != want_seq { ctx.fail("C09.sequence", c09_feats("normalized_segments", t, "standalone"), format!("normalized_segments of {} driven from both ends (mask {:#x}) = {} but the left-to-right scan gives {}", show(t), hsh, segs_show(&v), segs_show(&want_seq))); }
                 else if !lens_ok { ctx.fail("C09.sequence", c09_feats("normalized_segments.len", t, "standalone"), format!("normalized_segments().len() of {} does not count down while iterating from both ends", show(t))); }
+            }
+        }
+    }
+    // 1c. adaptor programs (nth, nth_back, folds, finds ...) on the normalised iterator
+    {
+        let hsh = crate::rng::hash_bytes(t);
+        for r in 0..3u32 {
+            let mask = hsh.rotate_left(r * 21) ^ (r as u64).wrapping_mul(0x9E37_79B9_7F4A_7C15);
+            match crate::ctx::guard(|| adaptor_program(p.normalized_segments(), &want_seq, mask)) {
+                Ok(Ok(())) => {}
+                Ok(Err(e)) => ctx.fail("C09.sequence", c09_feats("normalized_segments", t, "standalone"), format!("normalized_segments of {} {} (program {:#x})", show(t), e, mask)),
+                Err(m) => ctx.fail("C09.panic", c09_feats("normalized_segments", t, "standalone"), format!("normalized_segments of {} under adaptor program {:#x} panicked: {}", show(t), mask, m)),
             }
         }
     }
